@@ -27,6 +27,16 @@ from ..lattice import ALL, EMBEDDINGS, TOL, OffLattice
 from .. import tlc
 
 GROUND = "g"                      # the specification's name of FRAME's ground region "_"
+# An integer embedding with a step beyond 2^53 (even, so that centres stay integral): every lattice coordinate becomes a
+# Python int that no double represents when the lattice value is odd.  Rectangle numbers are only ECHOED by the reader
+# and the writer, so under this embedding they are pulled back EXACTLY (integer division, no tolerance): a conversion
+# through float anywhere on the way shows as an off-lattice rectangle.
+from ..lattice import Emb
+HUGE = Emb("huge", 2 ** 54 + 2, 0, as_int=True)
+
+
+def embedding(name: str):
+    return HUGE if name == "huge" else EMBEDDINGS[name]
 BAD_NAMES = {"3x", "a-b", "x y", ""}
 UNKNOWN = "Zq"
 _IDENT = re.compile(r"[A-Za-z_][A-Za-z0-9_]*")
@@ -159,7 +169,20 @@ def _region_in(r) -> str:
     return GROUND if r == "_" else str(r)
 
 
+def _exact_rect(emb, cx, cy, w, h) -> list:
+    """corner coordinates by exact rational arithmetic; every one must be an integer multiple of the step"""
+    out = []
+    for c, d, sgn in ((cx, w, -1), (cy, h, -1), (cx, w, 1), (cy, h, 1)):
+        q = (F(c) + sgn * F(d) / 2 - emb.off) / emb.step
+        if q.denominator != 1:
+            raise OffLattice(f"rectangle number not echoed exactly under the {emb.name} embedding: centre {c!r}, size {d!r}")
+        out.append(int(q))
+    return out
+
+
 def _rect5(emb, r) -> list:
+    if emb is HUGE:
+        return _exact_rect(emb, r.center.x, r.center.y, r.shape.w, r.shape.h) + [_region_in(r.region)]
     return emb.back_rectangle(r) + [_region_in(r.region)]
 
 
@@ -233,7 +256,8 @@ def parse_tree(tree, emb) -> dict:
                         rl = [v] if flat else v
                         rs = []
                         for r in rl:
-                            rs.append(emb.back_rect(r[0], r[1], r[2], r[3]) + [_region_in(r[4]) if len(r) > 4 else GROUND])
+                            corners = _exact_rect(emb, r[0], r[1], r[2], r[3]) if emb is HUGE else emb.back_rect(r[0], r[1], r[2], r[3])
+                            rs.append(corners + [_region_in(r[4]) if len(r) > 4 else GROUND])
                         md["rects"] = {"form": "flat" if flat else "list", "rs": rs}
                     else:
                         md["extra"].append(str(k))
@@ -311,7 +335,7 @@ def run_case(case: dict) -> dict:
     from frame.utils.utils import read_yaml
     out = {}
     for en in case["embs"]:
-        emb = EMBEDDINGS[en]
+        emb = embedding(en)
         evs = []
         tree = to_tree(case["doc"], emb)
         ev, n1 = load_event("load", to_text(tree) if case.get("text") else tree, emb)
@@ -338,8 +362,45 @@ def run_case(case: dict) -> dict:
                         evs.append({"op": "resave", "ok": 1, "yd": digest(y2), "yd1": sv["yd"], "text": y2})
                     except Exception as e:
                         evs.append({"op": "resave", "ok": 0, "yd": "", "yd1": sv["yd"], "exc": f"{type(e).__name__}"})
+            if case.get("file_emb") == en:
+                evs += file_round_trip(n1, emb)
         out[en] = evs
     return out
+
+
+def file_round_trip(n1, emb) -> list:
+    """the same round trip through FILES: write_yaml(path), Netlist(path), write_yaml(path2), the files compared byte for
+    byte (the writer takes another code path when it is given a file name)"""
+    import os
+    import tempfile
+    evs = []
+    fd1, p1 = tempfile.mkstemp(suffix=".yaml", prefix="c04-")
+    fd2, p2 = tempfile.mkstemp(suffix=".yaml", prefix="c04-")
+    os.close(fd1); os.close(fd2)
+    try:
+        try:
+            n1.write_yaml(p1)
+            b1 = open(p1, "rb").read()
+        except Exception as e:
+            return [{"op": "freload", "acc": 0, "exc": f"write_yaml(path): {type(e).__name__}: {str(e)[:100]}"}]
+        ev, n3 = load_event("freload", p1, emb)
+        ev["text"] = b1.decode("utf-8", "replace")
+        evs.append(ev)
+        if n3 is not None:
+            try:
+                n3.write_yaml(p2)
+                b2 = open(p2, "rb").read()
+                evs.append({"op": "fresave", "ok": 1, "yd": digest(b2.decode("utf-8", "replace")), "yd1": digest(b1.decode("utf-8", "replace")),
+                            "text": b2.decode("utf-8", "replace")})
+            except Exception as e:
+                evs.append({"op": "fresave", "ok": 0, "yd": "", "yd1": "", "exc": f"{type(e).__name__}"})
+    finally:
+        for p in (p1, p2):
+            try:
+                os.remove(p)
+            except OSError:
+                pass
+    return evs
 
 
 # ------------------------------------------------------------------------------------------------ random documents
@@ -506,6 +567,20 @@ def embeddings_for(i: int, doc: dict, tier: str) -> list[str]:
     return [["int", "flt", "half", "big"][i % 4], ["dec", "third", "tiny"][i % 3], "off"]
 
 
+def with_extras(i: int, case: dict) -> dict:
+    """the two further dimensions of the round trip, each for a share of the documents:
+    * FILES -- documents with several modules (whose listing order is not the sorted order of their names) also go
+      through write_yaml(path) / Netlist(path) / write_yaml(path2), under one of their embeddings in rotation;
+    * HUGE INTEGERS -- every third document with rectangles is also run under the integer embedding with a step beyond
+      2^53, where the rectangle numbers must be echoed exactly"""
+    doc = case["doc"]
+    if len(doc["mods"]) >= 2:
+        case["file_emb"] = case["embs"][i % len(case["embs"])]
+    if i % 3 == 0 and any(m["rects"]["rs"] for m in doc["mods"]):
+        case["embs"] = case["embs"] + ["huge"]
+    return case
+
+
 def strip_private(ev: dict) -> dict:
     return {k: v for k, v in ev.items() if k not in ("text", "exc", "off")}
 
@@ -531,7 +606,7 @@ def decide(ctx: Ctx, cases: list[dict]):
             # whether the two texts are identical, are one trace (TLC compares the digests of its representative)
             key = digest({"doc": c["doc"], "events": [
                 {**{k: v for k, v in e.items() if k not in ("yd", "yd1")}, "same": int(e.get("yd") == e.get("yd1"))}
-                if e["op"] == "resave" else {k: v for k, v in e.items() if k != "yd"} for e in t["events"]]})
+                if e["op"] in ("resave", "fresave") else {k: v for k, v in e.items() if k != "yd"} for e in t["events"]]})
             if key not in traces:
                 t["id"] = key
                 traces[key] = t
@@ -556,13 +631,15 @@ def decide(ctx: Ctx, cases: list[dict]):
             pattern = "other"
             if ev["op"] == "resave":
                 pattern = text_pattern(texts[key].get("save") or "", texts[key].get("resave") or "")
-            if ev["op"] == "reload" and ev.get("acc") == 1:
+            if ev["op"] == "fresave":
+                pattern = text_pattern(texts[key].get("freload") or "", texts[key].get("fresave") or "")
+            if ev["op"] in ("reload", "freload") and ev.get("acc") == 1:
                 o1, o2 = t["events"][0]["obs"], ev["obs"]
                 pattern = loss_pattern(clause, o1, o2)
                 detail["differs"] = [{"module": a["name"], "written": {k: a[k] for k in ("kind", "areas", "center", "aspect", "rects")},
                                       "read_back": {k: b[k] for k in ("kind", "areas", "center", "aspect", "rects")}}
                                      for a, b in zip(o1["mods"], o2["mods"]) if a != b][:3]
-            detail["text"] = (texts[key].get("save") or "")[:600]
+            detail["text"] = (texts[key].get("freload" if ev["op"].startswith("f") else "save") or "")[:600]
             ctx.violation(clause, {"doc": t["doc"], "embeddings": owners[key]}, detail,
                           {**feats, "event": ev["op"], "embedding": owners[key][0], "pattern": pattern})
         for (l, what) in v["drift"]:
@@ -582,7 +659,8 @@ def run(ctx: Ctx) -> int:
     if ctx.replay:
         rec = json.load(open(ctx.replay))
         c = rec["case"]
-        decide(ctx, [{"doc": c["doc"], "embs": c.get("embeddings") or list(ALL)}])
+        embs = c.get("embeddings") or list(ALL)
+        decide(ctx, [{"doc": c["doc"], "embs": embs, "file_emb": embs[0]}])
         return ctx.finish("model_checking", "replay of one recorded document")
     tier = ctx.tier
     tlc.model_check(ctx, "Fpef", f"Fpef_c04_mc_{tier}", vacuity_ignore=("Emit", "Defect"))
@@ -594,10 +672,10 @@ def run(ctx: Ctx) -> int:
         single = [d for d in docs if len(d["mods"]) == 1]
         rest = [d for d in docs if len(d["mods"]) != 1]
         docs = single + rng.sample(rest, budget - len(single))
-    cases = [{"doc": d, "embs": embeddings_for(i, d, tier)} for i, d in enumerate(docs)]
+    cases = [with_extras(i, {"doc": d, "embs": embeddings_for(i, d, tier)}) for i, d in enumerate(docs)]
     nrand = 250 if tier == "quick" else 3000
     rdocs = [random_doc(rng) for _ in range(nrand)]
-    cases += [{"doc": d, "embs": list(ALL), "text": i % 4 == 0} for i, d in enumerate(rdocs)]
+    cases += [with_extras(i, {"doc": d, "embs": list(ALL), "text": i % 4 == 0}) for i, d in enumerate(rdocs)]
     decide(ctx, cases)
     ctx.extra["embeddings"] = ALL
     ctx.extra["documents_from_tlc"] = len(gen)
@@ -609,6 +687,9 @@ def run(ctx: Ctx) -> int:
         "rectangle centres are non-negative (the reader refuses negative numbers); terminals carry no rectangles",
         "rectangles of a module and the members of a net are compared as multisets, nets as a multiset of nets (the "
         "statement orders only the modules); list order is model conformance",
+        "documents with several modules also make the round trip through files (write_yaml(path), Netlist(path), write_yaml(path2), "
+        "byte comparison); every third document with rectangles also runs under an integer embedding with step 2^54+2, where "
+        "rectangle numbers are pulled back exactly (no tolerance)",
         "the round trip starts from Netlist(doc) for a generated document doc (tree form; one random document in four as "
         "YAML text) and reads back the text write_yaml() returns, tolerance registers reset before every load",
     ]
